@@ -134,11 +134,14 @@ def regions(net, case):
     bb = {b: bb[b] & sup for b in supplied}
     seed = supplied[case["seed"] % len(supplied)]
     comp = _closure([seed], adj)
-    for radius in range(case["radius"], -1, -1):
+    slack = set(net.ext_grid.bus[net.ext_grid.in_service].values) | set(net.gen.bus[net.gen.in_service & net.gen.slack].values)
+    slack &= sup
+    other = "outer" if case["variant"] == "inner" else "inner"
+    for variant, radius in [(case["variant"], r) for r in range(case["radius"], -1, -1)] + [(other, r) for r in (1, 0)]:
         ball = {seed}
         for _ in range(radius):
             ball |= set().union(*[adj[b] for b in ball])
-        if case["variant"] == "inner":
+        if variant == "inner":
             boundary = {b for b in ball if adj[b] - ball}
         else:
             boundary = set().union(*[adj[b] for b in ball]) - ball
@@ -155,12 +158,18 @@ def regions(net, case):
             if g not in internal:
                 internal |= _closure([g], adj, allowed=rest)
         external = sup - internal - boundary_closed
+        # get_equivalent keeps a reference: without a slack in the internal area or at the boundary the external slack
+        # buses (with the buses fused to them by bus-bus switches) are treated as boundary buses
+        moved = set()
+        if not (slack & (internal | boundary_closed)):
+            moved = _closure(slack & external, bb)
+            external = external - moved
         if not external:
             continue
-        return {"seed": seed, "radius": radius,
+        return {"seed": seed, "radius": radius, "variant": variant,
                 "boundary_given": sorted(boundary_closed if case["close"] else boundary), "internal_given": given,
-                "boundary": sorted(boundary_closed), "internal": sorted(internal), "external": sorted(external),
-                "component": comp}
+                "boundary": sorted(boundary_closed | moved), "internal": sorted(internal), "external": sorted(external),
+                "component": comp, "moved": sorted(moved)}
     return None
 
 
@@ -204,7 +213,9 @@ def check(case):
     if reg is None:
         res.skipped = "no-valid-split"
         return res
-    res.label("variant:" + case["variant"], "give:" + case["give"], "radius:%d" % reg["radius"])
+    res.label("variant:" + reg["variant"], "give:" + case["give"], "radius:%d" % reg["radius"])
+    if reg["moved"]:
+        res.label("ext-slack-moved-to-boundary")
     snap = oracles.snapshot(net)
     res_before = {t: net[t].copy(deep=True) for t in oracles.res_tables(net)}
     raised = None
